@@ -8,6 +8,6 @@ mkdir -p $tmp/a/$(dirname $f) $tmp/b/$(dirname $f)
 cp /repo/$f $tmp/a/$f; cp /repo/$f $tmp/b/$f
 for e in "$@"; do sed -i "$e" $tmp/b/$f; done
 if cmp -s $tmp/a/$f $tmp/b/$f; then echo "mutation had no effect"; rm -rf $tmp; exit 1; fi
-{ echo "property: $props"; (cd $tmp && diff -u a/$f b/$f) || true; } > /verif/mutants/$name.diff
+{ echo "property: $props"; (cd $tmp && diff -u a/$f b/$f) || true; } > ${VERIF_DIR:-/verif}/mutants/$name.diff
 rm -rf $tmp
 echo "wrote mutants/$name.diff"
